@@ -107,6 +107,21 @@ def lib():
             assert 0 <= i < self.n
             return (f"x{i}", f"class{i}")
 
+    class PlainTorch1(Dataset):
+        """a torch dataset with ONE field per sample, returned as a 1-tuple (like TensorDataset(x))"""
+
+        def __init__(self, n, sibling=False):
+            self.n, self.sibling = n, sibling
+
+        def __len__(self):
+            return self.n
+
+        def __getitem__(self, i):
+            assert 0 <= i < self.n
+            return (f"sibling:x{self.n - 1 - i}",) if self.sibling else (f"x{i}",)
+
+    _LIB.update(PlainTorch1=PlainTorch1)
+
     class PlainTorchRev(PlainTorch):
         def __getitem__(self, i):
             assert 0 <= i < self.n
@@ -140,6 +155,7 @@ def stack_table(sibling=False):
         "F[xclass,ab]>root": (lambda n: F_two(Root(n)), [("x", "class"), ("a", "b")], ITEMS),
         "F[ab]>F[xclass]>root": (lambda n: F_outer_ab(F_xc(Root(n))), [("x", "class"), ("a", "b")], ITEMS),
         "torch[x class]": (lambda n: L["TorchWrapper"](PlainTorch(n), mode="x class"), [], ("x", "class")),
+        "torch[x]": (lambda n: L["TorchWrapper"](L["PlainTorch1"](n, sibling), mode="x"), [], ("x",)),
     }
 
 
